@@ -45,7 +45,8 @@ pub fn perform_auto_snapshot(
     history.add_with_context(project_stats, git_context.as_ref());
 
     // Save with retention policy applied
-    if let Err(e) = history.save_with_retention(&history_path, &config.trend) {
+    let result = history.save_with_retention(&history_path, &config.trend);
+    if let Err(e) = &result {
         // Log warning but don't fail the check
         if !quiet {
             crate::output::print_warning_full(
@@ -57,7 +58,8 @@ pub fn perform_auto_snapshot(
         return;
     }
 
-    if !quiet {
+    // A skipped save (lock time-out, already reported as a warning) recorded nothing
+    if !quiet && result.is_ok_and(state::SaveOutcome::is_saved) {
         eprintln!("Auto-snapshot recorded to {}", history_path.display());
     }
 }
